@@ -99,7 +99,10 @@ def generate(tier, rng):
     decorated = []
     for t in tgts:
         decorated.append(t)
-    extra = [t + suf for t in tgts[:60] for suf in (b"?q=1", b"#f", b"?a/b#c/d", b"#x?y")]
+    # a query may itself contain '?' (RFC 3986 3.4) and '/', a fragment may contain '?' and '#'-less text; the path ends at
+    # the FIRST '?' or '#'
+    extra = [t + suf for t in tgts[:60] for suf in (b"?q=1", b"#f", b"?a/b#c/d", b"#x?y", b"?a?b", b"?x=1?y=2#f", b"??",
+                                                    b"?a#b?c", b"?", b"#", b"?/a/b?")]
     tables = []
     # single route tables: GET only, or GET+POST
     for p in pats:
